@@ -85,6 +85,8 @@ def check(ctx):
     check_builder_records_all(ctx)
     check_release_reader_records_all(ctx)
     check_node_identity(ctx, ('taxonomy.',), floor=3)
+    from .C05 import sweep_generic_rules
+    sweep_generic_rules(ctx, ('taxonomy.',))
 
 
 # ----------------------------------------------------------------------
@@ -170,7 +172,8 @@ def mutation_sites(fi, roots):
     return out
 
 
-_PURITY = dict()
+from ..core.resolve import register_cache  # noqa: E402
+_PURITY = register_cache(dict())
 
 
 def mutates_param(db, fi, param, depth=0):
